@@ -291,3 +291,66 @@ class StubSourceScanner(object):
 
     def get_errors(self):
         return []
+
+
+class FakeCSourceScanner(object):
+    """Stand-in for the C extension class giscanner._giscanner.SourceScanner, one level below
+    StubSourceScanner: the project's own Python SourceScanner (file lists, realpath, which files
+    are lexed as sources and which are #included, the preprocessor run through CCompiler) stays
+    real and drives this object as it drives the C lexer.  What the C side would have found in the
+    files comes from the job: the comments of a file lexed with lex_filename(), and - for
+    parse_file() on the preprocessor's output - the symbols and comments of the named headers in
+    the order in which the preprocessor reached them (its `# <line> "<file>"` markers)."""
+
+    decls = []                # configured per scanner run (scanchild.run_scanner)
+    comments = []
+    comments_override = None
+    used = 0
+
+    def __init__(self):
+        type(self).used += 1
+        self._files = []
+        self._lexed = []
+        self._parsed = []
+
+    def append_filename(self, filename):
+        self._files.append(filename)
+
+    def lex_filename(self, filename):
+        self._lexed.append(filename)
+        return True
+
+    def parse_file(self, path):
+        import re
+        known = set(self._files)
+        with open(path, 'r', errors='replace') as f:
+            for line in f:
+                if line.startswith('#'):
+                    m = re.match(r'#(?:line)? *\d+ "(.*)"', line)
+                    if m:
+                        name = m.group(1)
+                        if name in known and name not in self._parsed:
+                            self._parsed.append(name)
+        return True
+
+    def parse_macros(self, filenames):
+        pass
+
+    def set_macro_scan(self, value):
+        pass
+
+    def get_symbols(self):
+        out = []
+        for f in self._parsed:
+            for d in self.decls:
+                if d['file'] == f:
+                    out.extend(symbols_of(d))
+        return out
+
+    def get_comments(self):
+        if self.comments_override is not None:
+            return [tuple(c) for c in self.comments_override]
+        return [tuple(c) for f in self._lexed + self._parsed for c in self.comments if c[1] == f]
+
+    def get_errors(self):
+        return []
